@@ -97,6 +97,58 @@ theorem mass_names_consistent :
     Gen.massNames.map (fun m => (m.name, m.id)) = [("mg", 1), ("ug", 2), ("g", 3), ("kg", 4)] := by
   constructor <;> decide +kernel
 
+/-! ### every reaction order -/
+
+/-- **`order_branching_same_both_directions`**: `QualParam._to_si` and `_from_si` decide on the reaction order in the SAME way (`ast`
+of both functions): neither re-assigns / normalises `reaction_order` (no `int(...)`, `round(...)`), and both make exactly the
+comparisons `== 1` (bulk), `== 0`, `== 1` (wall) in this order.  A normalisation in one direction only, or two different ones,
+fails here by name. -/
+theorem order_branching_same_both_directions :
+    Gen.orderBranching.normTo = [] ∧ Gen.orderBranching.normFrom = [] ∧
+    Gen.orderBranching.testsTo = ["reaction_order == 1", "reaction_order == 0", "reaction_order == 1"] ∧
+    Gen.orderBranching.testsFrom = Gen.orderBranching.testsTo := by
+  decide
+
+/-- a probe is well treated: both directions perform the chains of the same integer-order rows, there is such a row, and for a
+numeric order it is the row of `orderRow` -/
+def OrderProbe.ok (r : OrderProbe) : Bool :=
+  r.toRows == r.fromRows && !r.toRows.isEmpty &&
+  (match r.value with
+   | some v => r.toRows.contains (orderRow v)
+   | none => true)
+
+/-- **`order_probes_same_row`**: for every QualParam member and every probed form of the order (integers, floats equal to integers,
+fractional orders 0.3 … 2.5, negative, 3, numpy integers / floats, `True`, strings) the chains traced from `_to_si` and from
+`_from_si` are those of the SAME row of the table, the one `orderRow` names -/
+theorem order_probes_same_row : Gen.orderProbes.all OrderProbe.ok = true := by decide +kernel
+
+/-- the probes include fractional orders for both reaction coefficients (non-vacuity) -/
+example : (Gen.orderProbes.filter fun r => r.label == "1.5" && r.toRows == r.fromRows && r.toRows.contains 2).length ≥ 2 := by decide +kernel
+
+/-- **`inverse_every_order`**: for an arbitrary (rational) reaction order both directions use the row `orderRow o` of the traced
+table, so from_si ∘ to_si is the identity up to 1e-14 relative for EVERY order, not only 0, 1, 2 -/
+theorem inverse_every_order (o : Rat) (e : Entry) (he : e ∈ Gen.table) (_hrow : e.order = orderRow o) (x : Rat) :
+    |e.fromSI (e.toSI x) - x| ≤ epsInv * |x| ∧ |e.toSI (e.fromSI x) - x| ≤ epsInv * |x| :=
+  ⟨fromSI_toSI e he x, toSI_fromSI e he x⟩
+
+/-- the three rows exist for every quality parameter, flow unit and mass unit (`table_complete` lists the keys; here: as many
+entries of each order, and `orderRow` only ever names one of the three) -/
+theorem order_rows_complete :
+    ((Gen.table.filter fun e => !e.hyd && e.order == 0).length == (Gen.table.filter fun e => !e.hyd && e.order == 1).length &&
+     (Gen.table.filter fun e => !e.hyd && e.order == 1).length == (Gen.table.filter fun e => !e.hyd && e.order == 2).length) = true ∧
+    ∀ o : Rat, orderRow o ∈ [0, 1, 2] := by
+  constructor
+  · decide +kernel
+  · intro o
+    unfold orderRow
+    split
+    · simp
+    · split <;> simp
+
+/-- what a one-sided normalisation does (the seeded change C17-7: `int(float(o))` in one direction, `int(round(float(o)))` in the
+other): at 1.5 the directions use rows 1 and 2 -- the probe condition is false -/
+example : OrderProbe.ok { label := "1.5", value := some (3 / 2), param := 36, toRows := [1], fromRows := [0, 2] } = false := by decide +kernel
+
 /-! ### containers -/
 
 theorem data_labels_preserved (g : XVal → XVal) (d : Data) : (d.map g).labels = d.labels := by
